@@ -10,7 +10,10 @@ import (
 	"encoding/json"
 	"errors"
 	"fmt"
+	"os"
+	"regexp"
 	"strings"
+	"time"
 
 	"github.com/compose-spec/compose-go/v2/template"
 
@@ -109,6 +112,7 @@ func init() {
 			}
 			var d struct {
 				WF       bool            `json:"wf"`
+				WFml     bool            `json:"wf_ml"`
 				Rendered string          `json:"rendered"`
 				Eval     json.RawMessage `json:"eval"`
 			}
@@ -118,14 +122,87 @@ func init() {
 			if r.Rendered != d.Rendered {
 				return core.Disagree("Go render ≠ Lean render")
 			}
-			if !d.WF {
+			if !d.WF && !d.WFml {
 				return core.Skip("not well-formed")
 			}
 			if v := core.CrashVerdict(r.Out); v != nil {
 				return v
 			}
 			if !core.CanonEqual(r.Out, d.Eval) {
+				if !d.WF {
+					// well-formed only in the grammar at full strength: a newline inside an operator argument
+					return core.Fail("grammar:newline-in-argument", fmt.Sprintf("Substitute(%q) = %s but the grammar says %s", r.Rendered, r.Out, d.Eval))
+				}
 				return core.Fail("grammar:"+specShape(args), fmt.Sprintf("Substitute(%q) = %s but the grammar says %s", r.Rendered, r.Out, d.Eval))
+			}
+			return nil
+		},
+	})
+	// substLoad: the second observation point of the property — "string values in a project loaded from a
+	// document using the template".  The rendered template is the value of a label in a one-service
+	// compose file; the loaded project's label (or the class of the load error) is compared with the grammar.
+	core.Register("substLoad", &core.CheckDef{
+		Real: func(raw json.RawMessage) any {
+			var a specArgs
+			json.Unmarshal(raw, &a)
+			t := renderSegs(a.Ast)
+			q, _ := json.Marshal(t) // a JSON string is a YAML double-quoted scalar
+			req := core.LoadReq{
+				Files:       map[string]string{"compose.yaml": "name: p\nservices:\n  s:\n    image: img\n    labels:\n      k: " + string(q) + "\n"},
+				ConfigFiles: []string{"compose.yaml"},
+				Env:         a.Env,
+			}
+			p, root, err := req.Load()
+			defer os.RemoveAll(root)
+			if err != nil {
+				return map[string]any{"rendered": t, "out": map[string]any{"err": loadErrClass(err.Error())}}
+			}
+			svc, ok := p.Services["s"]
+			if !ok {
+				return map[string]any{"rendered": t, "out": map[string]any{"bad": "service missing"}}
+			}
+			return map[string]any{"rendered": t, "out": map[string]any{"ok": svc.Labels["k"]}}
+		},
+		DriverOp: "substSpec",
+		Timeout:  20 * time.Second,
+		Judge: func(args, real, drv json.RawMessage) *core.Verdict {
+			if v := core.CrashVerdict(real); v != nil {
+				return v
+			}
+			var r struct {
+				Rendered string          `json:"rendered"`
+				Out      json.RawMessage `json:"out"`
+			}
+			var d struct {
+				WF       bool            `json:"wf"`
+				WFml     bool            `json:"wf_ml"`
+				Rendered string          `json:"rendered"`
+				Eval     json.RawMessage `json:"eval"`
+			}
+			if json.Unmarshal(real, &r) != nil || json.Unmarshal(drv, &d) != nil || d.Eval == nil {
+				return core.Disagree("malformed spec-oracle exchange")
+			}
+			if r.Rendered != d.Rendered {
+				return core.Disagree("Go render ≠ Lean render")
+			}
+			if !d.WF && !d.WFml {
+				return core.Skip("not well-formed")
+			}
+			// the grammar's verdict, with errors reduced to their class
+			var ev map[string]any
+			json.Unmarshal(d.Eval, &ev)
+			want := map[string]any{}
+			if e, isErr := ev["err"]; isErr {
+				want["err"] = e
+			} else {
+				want["ok"] = ev["ok"]
+			}
+			wantRaw, _ := json.Marshal(want)
+			if !core.CanonEqual(r.Out, wantRaw) {
+				if !d.WF {
+					return core.Fail("grammar:newline-in-argument", fmt.Sprintf("label %q loaded as %s but the grammar says %s", r.Rendered, r.Out, wantRaw))
+				}
+				return core.Fail("load-grammar:"+specShape(args), fmt.Sprintf("label %q loaded as %s but the grammar says %s", r.Rendered, r.Out, wantRaw))
 			}
 			return nil
 		},
@@ -133,15 +210,34 @@ func init() {
 	core.RegisterProp("C07", runC07)
 }
 
+var (
+	reRequired = regexp.MustCompile(`required variable`)
+	reInvalid  = regexp.MustCompile(`(?i)invalid (template|interpolation format)`)
+)
+
+func loadErrClass(s string) string {
+	switch {
+	case reRequired.MatchString(s):
+		return "required"
+	case reInvalid.MatchString(s):
+		return "invalid"
+	}
+	return "other: " + s
+}
+
 // specShape classifies a failing AST by the operators it uses (the key of a finding).
 func specShape(args json.RawMessage) string {
 	var a specArgs
 	json.Unmarshal(args, &a)
 	seen := map[string]bool{}
-	var walk func(l []seg)
-	walk = func(l []seg) {
+	var walk func(l []seg, inArg bool)
+	walk = func(l []seg, inArg bool) {
 		for _, s := range l {
 			switch {
+			case s.Lit != nil:
+				if inArg && strings.ContainsAny(*s.Lit, "{}") {
+					seen["brace-literal-in-argument"] = true
+				}
 			case s.Esc != nil:
 				seen["$$"] = true
 			case s.Var != nil && s.Braced:
@@ -150,11 +246,14 @@ func specShape(args json.RawMessage) string {
 				seen["$N"] = true
 			case s.Op != nil:
 				seen[s.O] = true
-				walk(s.Arg)
+				walk(s.Arg, true)
 			}
 		}
 	}
-	walk(a.Ast)
+	walk(a.Ast, false)
+	if seen["brace-literal-in-argument"] {
+		return "brace-literal-in-argument"
+	}
 	var ks []string
 	for _, k := range []string{"$$", "$N", "${}", ":-", "-", ":+", "+", ":?", "?"} {
 		if seen[k] {
@@ -224,7 +323,7 @@ func runC07(ctx *core.Ctx) {
 		if !inArg {
 			l = append(l, seg{Lit: str("}")}, seg{Lit: str("a\nb")}, seg{Lit: str("{")})
 		} else {
-			l = append(l, seg{Lit: str(":-")})
+			l = append(l, seg{Lit: str(":-")}, seg{Lit: str("{}")}, seg{Lit: str("{{x}}")}, seg{Lit: str("a\nb")})
 		}
 		return l
 	}
@@ -271,6 +370,7 @@ func runC07(ctx *core.Ctx) {
 	var rnd func(depth int, inArg bool) []seg
 	lits := []string{"x", " ", "lit", "a-b", ":", "?", "+", "é", "1"}
 	topLits := []string{"}", "{", "a\nb", "}}", "{}"}
+	argLits := []string{"{}", "{x}", "{{.N}}", "{\"a\":{}}", "a{b}c", "l1\nl2"}
 	rnames := []string{"A", "B", "_x1", "a", "Kf"}
 	rnd = func(depth int, inArg bool) []seg {
 		n := ctx.Rng.Intn(4)
@@ -281,6 +381,8 @@ func runC07(ctx *core.Ctx) {
 				l = append(l, seg{Lit: str(lits[ctx.Rng.Intn(len(lits))])})
 			case k == 1 && !inArg:
 				l = append(l, seg{Lit: str(topLits[ctx.Rng.Intn(len(topLits))])})
+			case k == 1 && inArg && ctx.Rng.Intn(2) == 0:
+				l = append(l, seg{Lit: str(argLits[ctx.Rng.Intn(len(argLits))])})
 			case k == 2:
 				l = append(l, seg{Esc: &tru})
 			case k == 3:
@@ -306,6 +408,35 @@ func runC07(ctx *core.Ctx) {
 			}
 		}
 		ctx.Count("ast-random")
-		ctx.Add("substSpec", specArgs{Ast: rnd(3, false), Env: env})
+		ast := rnd(3, false)
+		ctx.Add("substSpec", specArgs{Ast: ast, Env: env})
+		// correspondence on grammar-shaped text: the rendering itself and a one-edit perturbation of it
+		// (mostly-valid structured inputs: nested braces, greedy tails, operators inside arguments)
+		txt := renderSegs(ast)
+		ctx.Count("rendered-ast-string")
+		ctx.Add("subst", substArgs{T: txt, Env: env})
+		if r := []rune(txt); len(r) > 0 {
+			pos := ctx.Rng.Intn(len(r) + 1)
+			var mut []rune
+			switch ctx.Rng.Intn(3) {
+			case 0: // delete
+				if pos == len(r) {
+					pos--
+				}
+				mut = append(append(mut, r[:pos]...), r[pos+1:]...)
+			case 1: // insert
+				mut = append(append(append(mut, r[:pos]...), []rune(wide[ctx.Rng.Intn(len(wide))])...), r[pos:]...)
+			default: // duplicate a slice (creates repeated / unbalanced braces)
+				end := pos + ctx.Rng.Intn(len(r)-pos+1)
+				mut = append(append(append(mut, r[:end]...), r[pos:end]...), r[end:]...)
+			}
+			ctx.Count("perturbed-ast-string")
+			ctx.Add("subst", substArgs{T: string(mut), Env: env})
+		}
+		if i%ctx.Pick(10, 40) == 0 {
+			// every n-th random AST is also pushed through the whole loader
+			ctx.Count("ast-random-load")
+			ctx.Add("substLoad", specArgs{Ast: ast, Env: env})
+		}
 	}
 }
